@@ -157,7 +157,7 @@ def run_coupled(rec, F, cnt):
         raise core.Inconclusive(f'exception {info["exception"][0]} at {info["exception"][2]}')
     # strength outputs over the history
     n = m.pData.n
-    if sm.rss is not None and len(sm.rss) == n + 1:
+    if sm.rss is not None and len(sm.rss) == n + 1 and len(sm.ls) == n + 1 and len(sm.solidStrength) == n + 1:
         with np.errstate(all='ignore'):
             ps = np.asarray(sm.precStrength(m), dtype=float)
             tot = np.asarray(sm.totalStrength(sm.solidStrength, ps), dtype=float)
